@@ -108,15 +108,17 @@ def check(case):
             pos.setdefault(ws[i][2], []).append(i)
         permuted = [ws[i] for i in order]
         # restore the given relative order inside groups of equal until-distance
+        # (equality as the library sees it: the base-unit magnitude; two distances one ulp apart in feet can coincide there)
+        gk = lambda w: pb.Distance.Foot(w[2]).raw_value
         groups = {}
         for w in ws:
-            groups.setdefault(w[2], []).append(w)
+            groups.setdefault(gk(w), []).append(w)
         seen = {}
         fixed = []
         for w in permuted:
-            k = seen.get(w[2], 0)
-            fixed.append(groups[w[2]][k])
-            seen[w[2]] = k + 1
+            k = seen.get(gk(w), 0)
+            fixed.append(groups[gk(w)][k])
+            seen[gk(w)] = k + 1
         other, _ = _run(case, dict(spec, winds=fixed))
         _same(r, "C12:order-of-given-list-matters", base, other, f"winds {ws} vs permuted {fixed}")
         nt = nt and fixed != ws
